@@ -145,6 +145,66 @@ def stopReaches : List Call → List Obs → Bool
 def cStopReaches (i : Input) (t : Trace) : Bool :=
   !(inScope i && i.shape.noStream) || stopReaches i.hist t.obs
 
+/-! ### every result by itself: its own fail-fast setting survives whatever wrappers do -/
+/- `failfast` as a freshly built object reads it: a `MultiTestResult` reads its first target's, an
+`ExtendedToOriginalDecorator` its target's (its own flag, initially false, if the target has none) -/
+mutual
+def ffRead : Shape → Bool
+  | .tt ff | .text ff => ff
+  | .etod c => (caps c).failfast && ffRead c
+  | .multi ds => ffReadHead ds
+  | _ => false
+def ffReadHead : List Shape → Bool
+  | [] => false
+  | d :: _ => ffRead d
+end
+
+/- per leaf: some `ExtendedToOriginalDecorator` above it reads `failfast` as true (and therefore calls `stop()`,
+which reaches everything below it, on a bad outcome) -/
+mutual
+def guards : Bool → Shape → List Bool
+  | g, .tt _ | g, .text _ | g, .sink _ | g, .tbt => [g]
+  | g, .etod c => guards (g || ffRead (.etod c)) c
+  | g, .deco c | g, .tagger _ _ c | g, .tfr c | g, .e2s c => guards g c
+  | g, .multi cs => guardsL g cs
+def guardsL : Bool → List Shape → List Bool
+  | _, [] => []
+  | g, c :: cs => guards g c ++ guardsL g cs
+end
+
+def noAssign (h : List Call) : Bool := h.all fun | .setFailfast _ => false | _ => true
+
+/-- no assignment of `failfast` through a wrapper: every result keeps the setting it was built with, after every call -/
+def cLeafKept (i : Input) (t : Trace) : Bool :=
+  !(inScope i && i.shape.noStream && noAssign i.hist) || t.obs.all (·.leafFF == leafParams i.shape)
+
+def zipAll3 (p : Bool → Bool → Bool → Bool) : List Bool → List Bool → List Bool → Bool
+  | [], [], [] => true
+  | a :: as, b :: bs, c :: cs => p a b c && zipAll3 p as bs cs
+  | _, _, _ => false
+
+/-- per result (stop, fail-fast parameter, guard), given whether a bad outcome was reported since the last
+`startTestRun`: a result built with fail-fast has stopped; a result built without, under no fail-fast
+`ExtendedToOriginalDecorator`, has not -/
+def leafRule (bad : Bool) (stopped ff guard : Bool) : Bool :=
+  (!(bad && ff) || stopped) && (!(!ff && !guard) || !stopped)
+
+def leafStops (params gs : List Bool) : Bool → List Call → List Obs → Bool
+  | _, [], [] => true
+  | bad, c :: h, o :: os =>
+    let bad' := match c with
+      | .startTestRun => false
+      | .add k _ _ => bad || Kind.bad k
+      | _ => bad
+    zipAll3 (leafRule bad') o.leafStop params gs && leafStops params gs bad' h os
+  | _, _, _ => false
+
+/-- without `stop()` and without assignments of `failfast` through wrappers: each result stops exactly by its own
+setting (or by a fail-fast decorator above it) -/
+def cLeafStops (i : Input) (t : Trace) : Bool :=
+  !(inScope i && i.shape.noStream && noAssign i.hist && i.hist.all (· != .stop))
+  || leafStops (leafParams i.shape) (guards false i.shape) false i.hist t.obs
+
 /-! ### testtools.run -/
 /-- the tests a suite dispatches: all, or with fail-fast up to and including the first bad one -/
 def dispatched (ff : Bool) : List Kind → List Kind
@@ -171,7 +231,8 @@ def cExit (i : Input) (t : Trace) : Bool :=
 def clauses : List (String × (Input → Trace → Bool)) :=
   [("verdict", cVerdict), ("text-summary", cText), ("failfast-kept", cFailfastKept),
    ("failfast-stops", cFailfastStops), ("stop-sticky", cSticky), ("not-earlier", cNotEarlier),
-   ("stop-reaches", cStopReaches), ("exit-status", cExit)]
+   ("stop-reaches", cStopReaches), ("leaf-failfast-kept", cLeafKept), ("leaf-stops", cLeafStops),
+   ("exit-status", cExit)]
 
 def holds (i : Input) (t : Trace) : Bool := clauses.all fun c => c.2 i t
 
@@ -180,51 +241,5 @@ reported to directly -/
 def tfrOwnFailfastDirect (i : Input) : Bool :=
   (match i.shape with | .tfr _ => true | _ => false) &&
   i.hist.any fun | .setFailfast true => true | _ => false
-
-/-- the `MultiTestResult` an assignment of `failfast` is passed on to through `ExtendedToOriginalDecorator`s -/
-def reachMulti : Shape → Option (List Shape)
-  | .etod c => reachMulti c
-  | .multi ds => some ds
-  | _ => none
-
-/- `failfast` as read from a freshly built object, and the leaves an assignment of `failfast` to it reaches -/
-mutual
-def ffRead : Shape → Bool
-  | .tt ff | .text ff => ff
-  | .etod c => (caps c).failfast && ffRead c
-  | .multi ds => ffReadHead ds
-  | _ => false
-def ffReadHead : List Shape → Bool
-  | [] => false
-  | d :: _ => ffRead d
-end
-mutual
-def ffReach : Shape → List Bool
-  | .tt ff | .text ff => [ff]
-  | .etod c => if (caps c).failfast then ffReach c else []
-  | .multi ds => ffReachL ds
-  | _ => []
-def ffReachL : List Shape → List Bool
-  | [] => []
-  | d :: ds => ffReach d ++ ffReachL ds
-end
-
-/- known finding `nestedMultiFailfast`: a `MultiTestResult` holding (through `ExtendedToOriginalDecorator`s) another
-one that hands a `failfast` assignment on to a leaf whose `failfast` differs from what the inner one reads as its own
-(its first target's) -/
-mutual
-def mixedNested : Shape → Bool
-  | .multi cs => mixedNestedL cs || cs.any fun c =>
-      match reachMulti c with
-      | some ds => !((ffReachL ds).all (· == ffReadHead ds))
-      | none => false
-  | .etod c | .deco c | .tagger _ _ c | .tfr c | .e2s c => mixedNested c
-  | _ => false
-def mixedNestedL : List Shape → Bool
-  | [] => false
-  | c :: cs => mixedNested c || mixedNestedL cs
-end
-
-def nestedMultiFailfast (i : Input) : Bool := mixedNested i.shape
 
 end TTV.Spec.C04
